@@ -39,11 +39,16 @@ struct C05Vis {
 		std::vector<T> const snap = *store;
 		auto srcval = [&](L k) { return mkval<T>(5, k); };
 		auto run = [&](char const* what) { describe(std::string(" => ") + OV[ov] + " src=" + what + " dst=" + m.shape()); sig_mix(std::uint64_t(ov)); sig_mix(what); op(OV[ov]); count(std::string("ov:") + OV[ov]); nontrivial(N >= 2); };
-		std::string const K = std::string("C05:") + OV[ov] + ":";
+		bool const rb = D >= 2 && (ov == 0 || ov == 1 || ov == 2 || ov == 3 || ov == 5 || ov == 8 || ov == 12) && g->chance(1, 4); L const rb0 = g->in(-3, 4); L rb1 = g->in(-3, 3); if(rb1 == 0) rb1 = 2;
+		auto rebased = [&](auto& x) { if constexpr(D >= 2) { return x.reindexed(rb0, rb1); } else { return x(); } };  // (a 1-D reindexed(i) of a mutable view is a read-only view: nothing to assign to)
+		std::string const K = std::string("C05:") + OV[ov] + (rb ? "(re-based):" : ":");
 		switch(ov) {
 		case 0: case 1: case 2: case 8: case 12: {  // assignment from a source of equal extents with any layout
 			with_source<D, T>(sk, m.size, 5, [&](auto& src, MV const& sm, auto* sbase, L sn) { using ST = std::decay_t<decltype(*sbase)>;
 				run(src_name(sk)); std::vector<T> ssnap(sbase, sbase + sn);
+				if(rb) { auto&& w = rebased(v); auto&& sw = rebased(src); count("re-based-assignments");  // the same assignment between views whose index bases are not 0 (equal on both sides): element k goes to element k all the same
+					if(ov == 0) { w = sw; } else if(ov == 1) { std::move(w) = sw; } else if(ov == 8) { w = std::as_const(sw); } else if(ov == 2) { w = std::move(sw); } else { std::move(w) = std::move(sw); } }
+				else
 				if(ov == 0) { v = src; } else if(ov == 1) { std::move(v) = src; } else if(ov == 8) { v = std::as_const(src); } else if(ov == 2) { v = std::move(src); } else { std::move(v) = std::move(src); }
 				check_image(K, m, snap, srcval);
 				if(ov == 0 || ov == 1 || ov == 8) { for(L i = 0; i < sn; ++i) if(!(sbase[i] == ssnap[std::size_t(i)])) violation(K + "source-modified", "copy assignment modified its source"); }
@@ -52,12 +57,13 @@ struct C05Vis {
 			}); break; }
 		case 9: {  // convertible element type
 			with_source<D, T2>(sk, m.size, 5, [&](auto& src, MV const&, T2*, L) { run(src_name(sk)); v = src; check_image(K, m, snap, [&](L k) { return mkval<T2>(5, k); }); }); break; }
-		case 3: { with_source<D, T>(sk, m.size, 5, [&](auto& src, MV const&, T*, L) { run(src_name(sk)); v.elements() = src.elements(); check_image(K, m, snap, srcval); }); break; }
+		case 3: { with_source<D, T>(sk, m.size, 5, [&](auto& src, MV const&, T*, L) { run(src_name(sk)); if(rb) { auto&& w = rebased(v); auto&& sw = rebased(src); count("re-based-assignments"); w.elements() = sw.elements(); } else { v.elements() = src.elements(); } check_image(K, m, snap, srcval); }); break; }
 		case 4: { if constexpr(D == 1) { run("value"); T x = mkval<T>(7, 1); v.fill(x); check_image(K, m, snap, [&](L) { return x; }); } else { run("value(elements)"); T x = mkval<T>(7, 1); std::fill(v.elements().begin(), v.elements().end(), x); check_image(K, m, snap, [&](L) { return x; }); } break; }
 		case 5: {  // swap of two views of equal extents
 			with_source<D, T>(sk, m.size, 5, [&](auto& src, MV const& sm, auto* sbase, L sn) { using ST = std::decay_t<decltype(*sbase)>;
 				if constexpr(is_mutable_view<decltype(src)> ) {
 					run(src_name(sk)); std::vector<T> ssnap(sbase, sbase + sn);
+					if(rb) { auto&& w = rebased(v); auto&& sw = rebased(src); count("re-based-assignments"); if(g->chance(1, 2)) { swap(std::move(w), std::move(sw)); } else { std::move(w).swap(std::move(sw)); } } else
 					if(g->chance(1, 2)) { swap(std::move(v), std::move(src)); } else { std::move(v).swap(std::move(src)); }
 					check_image(K, m, snap, srcval);
 					std::vector<char> in(std::size_t(sn), 0);
